@@ -15,7 +15,8 @@ LEVEL = "exploration"
 RULE = (
     "(a) case = workflow x mode; the ack of EVERY message of the run is withheld once so each message comes back "
     "later, while the in-memory filter is disturbed between deliveries: nothing / forced rotation (reset) / global "
-    "filter dropped / processor re-created (fresh filter + hydration) at random steps, with dedup_trust_negative_cache "
+    "filter dropped / processor re-created (fresh filter + hydration) at random steps / the durable is-processed lookup "
+    "failing with a transient store error (35 % of the lookups), with dedup_trust_negative_cache "
     "off and on, and across a real restart (crash snapshots resumed as a fresh worker, every message redelivered). "
     "Oracle: a delivery whose processed mark was durable before the delivery's claim commit never enters a handler; "
     "no task executes after its completion is durable; execution counts equal the exactly-once reference. "
@@ -34,10 +35,32 @@ RULE = (
     "redelivery of an already marked message; distinct = (message type, disturbance mode, trust flag)."
 )
 ASSUMPTIONS = ["SQLite backend", "dedup_trust_negative_cache=True only in the single-writer setting the option documents"]
-MIN_OBS = {"marked_redeliveries": {"quick": 2000, "thorough": 30000}, "bloom_ids_checked": {"quick": 5000, "thorough": 100000}, "threaded_marked_redeliveries": {"quick": 5000, "thorough": 80000}, "threaded_rotations": {"quick": 500, "thorough": 8000}, "threaded_hydrations": {"quick": 300, "thorough": 5000}}
+MIN_OBS = {"marked_redeliveries": {"quick": 2000, "thorough": 30000}, "bloom_ids_checked": {"quick": 5000, "thorough": 100000}, "threaded_marked_redeliveries": {"quick": 5000, "thorough": 80000}, "threaded_rotations": {"quick": 500, "thorough": 8000}, "threaded_hydrations": {"quick": 300, "thorough": 5000}, "lookup_faults_injected": {"quick": 200, "thorough": 3000}}
 TIMEOUT = {"quick": 800, "thorough": 3400}
 
-MODES = ["none", "rotate", "reset_dedup", "new_processor", "mixed"]
+MODES = ["none", "rotate", "reset_dedup", "new_processor", "mixed", "lookup_fault"]
+
+
+class _LookupFault:
+    """Failpoint: the durable is-processed lookup (SELECT ... FROM processed_messages WHERE message_id) fails
+    with a transient store error now and then.  A failed lookup must fail the delivery (the message comes back),
+    never be read as 'not processed'."""
+
+    def __init__(self, rng: random.Random, p: float) -> None:
+        self.rng, self.p, self.fired = rng, p, 0
+        self.hit: set = set()
+
+    def __call__(self, conn, sql, args) -> None:
+        if isinstance(sql, str) and "FROM processed_messages" in sql and "WHERE message_id" in sql and "SELECT" in sql.upper():
+            key = repr(args)
+            # at most one failed lookup per message id: the delivery fails once and is retried, the message
+            # never runs out of attempts because of the injected faults
+            if key not in self.hit and self.rng.random() < self.p:
+                import sqlite3
+
+                self.hit.add(key)
+                self.fired += 1
+                raise sqlite3.OperationalError("database is locked")
 
 
 def gen_cases(tier: str, seed: int) -> list[dict]:
@@ -67,11 +90,24 @@ def _redeliver(case: dict) -> dict:
     sample = None
     for mode in MODES:
         inj = []
-        if mode != "none":
+        if mode not in ("none", "lookup_fault"):
             for _ in range(rng.randint(2, 6)):
                 do = mode if mode != "mixed" else rng.choice(["rotate", "reset_dedup", "new_processor"])
                 inj.append({"at": rng.randrange(1, max(2, ref.steps * 2)), "do": do})
-        run = delivery_run(spec, seed=rng.randrange(1 << 30), order=rng.choice(["fifo", "random"]), noack_p=1.0, max_redeliver=1, injections=inj, trust_negative=case["trust"], max_steps=ref.steps * 5 + 100, dedup_items=rng.choice([50, 200, 2000]))
+        fp = None
+        if mode == "lookup_fault":
+            from .. import hooks
+
+            fp = _LookupFault(random.Random(rng.randrange(1 << 30)), 0.35)
+            hooks.H.stmt_hook = fp
+        try:
+            run = delivery_run(spec, seed=rng.randrange(1 << 30), order=rng.choice(["fifo", "random"]), noack_p=1.0, max_redeliver=1, injections=inj, trust_negative=case["trust"], max_steps=ref.steps * 8 + 200, dedup_items=rng.choice([50, 200, 2000]))
+        finally:
+            if fp is not None:
+                from .. import hooks
+
+                hooks.H.stmt_hook = None
+                obs["lookup_faults_injected"] += fp.fired
         obs["evaluations"] += 1
         if run.budget_exhausted:
             obs["budget_exhausted"] += 1
